@@ -496,11 +496,15 @@ class LRUCache:
 
     def __contains__(self, key: t.Any) -> bool:
         """Check if a key exists in this cache."""
-        return key in self._mapping
+        # Setting an item in a full cache changes the mapping in two steps,
+        # the lock keeps the state in between from being observed.
+        with self._wlock:
+            return key in self._mapping
 
     def __len__(self) -> int:
         """Return the current size of the cache."""
-        return len(self._mapping)
+        with self._wlock:
+            return len(self._mapping)
 
     def __repr__(self) -> str:
         return f"<{type(self).__name__} {self._mapping!r}>"
